@@ -960,6 +960,12 @@ class Walker:
             for k in list(env):
                 if env[k] == v:
                     env[k] = nv
+            if base[0] in ("field", "index", "downcast"):
+                # a place inside a larger object: later reads of that place see the new version
+                st["heap"] = dict(st["heap"])
+                st["heap"][base] = nv
+                if v != base:
+                    st["heap"][v] = nv
 
     def _switch(self, bb, t, v, st, path, visited):
         body = self.body
